@@ -56,6 +56,7 @@ def run(ctx, ck) -> None:
     _r_nary(ck, world, table)
     _r_ident(ck, world, table)
     _r_red(ck, world, table)
+    _r_pure(ck, world, table, rules)
     _r_raise(ck, world, table, rules, infos)
 
 
@@ -536,6 +537,76 @@ def _r_ident(ck, world, table) -> None:
                       f'{cls.name}.reduce returns an identity ' + ('without a dominating no-op guard' if guard is None else f'on {show(rt[2])} instead of self.in_structure()')
                       + ': an operator that changes its input is replaced by the identity', instance='no-op guard')
     ck.floor('R-IDENT', n, 3, 'identity-returning reduce sites')
+
+
+# ------------------------------------------------------------------------------ R-PURE
+def in_place_alias_updates(fn: ast.FunctionDef):
+    """AugAssign / item stores whose target name is, on some path, a bare alias of data reached from a parameter
+    (``angles = left.angles; angles += ...``): on a NumPy array this mutates the operand in place."""
+    params = {a.arg for a in fn.args.args + fn.args.kwonlyargs}
+    out = []
+    for p in function_paths(fn):
+        alias: dict[str, str] = {}
+        for ev in p.events:
+            if ev[0] != 'stmt':
+                continue
+            st = ev[1]
+            if isinstance(st, (ast.Assign, ast.AnnAssign)) and st.value is not None:
+                targets = st.targets if isinstance(st, ast.Assign) else [st.target]
+                v = st.value
+                root = v
+                while isinstance(root, ast.Attribute):
+                    root = root.value
+                is_alias = isinstance(v, ast.Attribute) and isinstance(root, ast.Name) and (root.id in params or root.id in alias)
+                is_name_alias = isinstance(v, ast.Name) and v.id in alias
+                for t in targets:
+                    if isinstance(t, ast.Name):
+                        if is_alias or is_name_alias:
+                            alias[t.id] = ast.unparse(v)
+                        else:
+                            alias.pop(t.id, None)
+            elif isinstance(st, ast.AugAssign):
+                t = st.target
+                base = t.value if isinstance(t, ast.Subscript) else t
+                if isinstance(base, ast.Name) and base.id in alias:
+                    out.append((st, base.id, alias[base.id]))
+                elif isinstance(t, ast.Name):
+                    alias.pop(t.id, None) if False else None
+            elif isinstance(st, ast.Assign) and any(isinstance(t, ast.Subscript) and isinstance(t.value, ast.Name) and t.value.id in alias for t in st.targets):
+                t = next(t for t in st.targets if isinstance(t, ast.Subscript))
+                out.append((st, t.value.id, alias[t.value.id]))
+    seen = set()
+    uniq = []
+    for st, n, src in out:
+        if id(st) not in seen:
+            seen.add(id(st))
+            uniq.append((st, n, src))
+    return uniq
+
+
+def _r_pure(ck, world, table, rules) -> None:
+    fns = []
+    for r in rules + [table.by_name('HomothetyRule'), table.by_name('IdentityRule'), table.by_name('AlgebraicReductionRule')]:
+        for name in ('check', 'apply'):
+            f = r.own.get(name)
+            if isinstance(f, ast.FunctionDef):
+                fns.append(f)
+    for cls in table.operators():
+        f = cls.own.get('reduce')
+        if isinstance(f, ast.FunctionDef):
+            fns.append(f)
+    base_check = table.by_name('AbstractBinaryRule').own.get('check')
+    if isinstance(base_check, ast.FunctionDef):
+        fns.append(base_check)
+    ck.floor('R-PURE', len(fns), 20, 'rule / reduce functions scanned for in-place updates')
+    nbad = 0
+    for f in fns:
+        for st, name, src in in_place_alias_updates(f):
+            nbad += 1
+            ck.bad('R-PURE', st, f'`{ast.unparse(st)[:50]}` updates `{name}` in place while it is a bare alias of `{src}`: when that operand field is a NumPy array the '
+                   'augmented assignment mutates the operand itself, so reduce() changes the map denoted by the *original* expression (and by every operator sharing the array)', instance=f'{f.name} {name}')
+    if not nbad:
+        ck.ok('R-PURE', fns[0], f'no rule or reduce method updates an alias of operand data in place ({len(fns)} functions)', instance='no in-place update of operand data')
 
 
 # ------------------------------------------------------------------------------ R-RED
